@@ -362,8 +362,17 @@ func (s *snappyCodec) decompress(compressed []byte) ([]byte, error) {
 	if len(compressed) < 4 {
 		return nil, errors.New("snappy block too short to hold its checksum")
 	}
+	body := compressed[:len(compressed)-4]
+	// snappy.Decode allocates the length the stream declares before looking at
+	// the rest of it. No snappy element expands by more than 64/3 (a 3 byte
+	// copy yields at most 64 bytes), so a larger claim is corrupt.
+	if n, err := snappy.DecodedLen(body); err != nil {
+		return nil, fmt.Errorf("snappy decode failed: %w", err)
+	} else if n > 22*len(body) {
+		return nil, fmt.Errorf("snappy decode failed: declared length %d impossible for %d bytes", n, len(body))
+	}
 	var err error
-	s.buf, err = snappy.Decode(s.buf[:cap(s.buf)], compressed[:len(compressed)-4])
+	s.buf, err = snappy.Decode(s.buf[:cap(s.buf)], body)
 	if err != nil {
 		return nil, fmt.Errorf("snappy decode failed: %w", err)
 	}
